@@ -86,6 +86,8 @@ let codec_eval (fn : string) (args : string list) : string =
   | _ -> raise Not_found
 
 let evaluators : (string -> string list -> string) list ref = ref [ rt_eval; time_eval; codec_eval ]
+(* further engines register their evaluator from their own file (listed in ORDER before main.ml) *)
+let register (e : string -> string list -> string) = evaluators := !evaluators @ [ e ]
 
 let eval fn args =
   let rec go = function
@@ -128,6 +130,3 @@ let run_file path =
   close_in ic;
   Printf.printf "DRIVER\tcases=%d\tmismatches=%d\n" !total !mism
 
-let () =
-  if Array.length Sys.argv < 2 then (prerr_endline "usage: driver <casefile>..."; exit 2);
-  for i = 1 to Array.length Sys.argv - 1 do run_file Sys.argv.(i) done
